@@ -148,6 +148,17 @@ func (u *Universe) ScanLocksTruth() ([]LockRec, error) {
 		}
 		start = loc.EndKey
 	}
+	// mocktikv's ScanLock does not fill the lock type (it reads as Put): take type, for-update ts and
+	// async-commit flag from the MVCC record of the key
+	for i := range out {
+		if kt, err := u.truthKey(out[i].Key); err == nil && kt.Lock != nil && kt.Lock.StartTS == out[i].StartTS {
+			out[i].Type = kt.Lock.Type
+			if out[i].ForUpdateTS == 0 {
+				out[i].ForUpdateTS = kt.Lock.ForUpdateTS
+			}
+			out[i].UseAsync = out[i].UseAsync || kt.Lock.UseAsync
+		}
+	}
 	return out, nil
 }
 
